@@ -126,6 +126,13 @@ def emit(d):
         else:
             o.append(f"                (Via::TryGet, {n}) => {{ {upd(path_field(leaf), kind, auto)}; true }}\n")
     o.append("                _ => false,\n            }\n        }\n")
+    if base_kind(kind) == "Histogram" and not auto:
+        o.append("        fn timer_discard(&self, leaf: usize) -> bool {\n            let s = self;\n            let _ = s;\n            match leaf {\n")
+        for n,leaf in enumerate(leaves):
+            o.append(f"                {n} => {{ {path_field(leaf)}.start_timer().stop_and_discard(); true }}\n")
+        o.append("                _ => false,\n            }\n        }\n")
+    else:
+        o.append("        fn timer_discard(&self, _leaf: usize) -> bool { false }\n")
     if form == "plain":
         o.append("        fn flush(&self) {}\n")
     elif form == "local":
